@@ -45,18 +45,19 @@ type c02Env struct {
 	order  []string // token labels in creation order
 	ntok   int
 	// identity set-up (lazily created)
-	roleCIDR  bool
-	ents      map[string]string    // entity label -> id
-	entOff    map[string]bool      // entity label -> currently disabled
-	short     map[string]time.Time // tokens created with a real 2 s TTL -> creation time
-	nextShort bool
-	polRules  map[string]string    // policy name -> rules as written (generator bookkeeping only)
-	tokPols   map[string][]string  // token label -> policy names
-	dead      map[string]bool      // tokens the generator revoked or expired (bias only, never used for the verdict)
-	qualified bool                 // with ns: requests (and capability questions) are made in the ROOT namespace with "<ns>/<path>"
-	cross     bool                 // with ns: policies and tokens live in the ROOT namespace (rules name "<ns>/…"), mounts and requests in ns
-	ns        *namespace.Namespace // non-nil: the whole case (mounts, policies, tokens, requests) lives in this child namespace
-	debug     bool
+	roleCIDR   bool
+	ents       map[string]string    // entity label -> id
+	entOff     map[string]bool      // entity label -> currently disabled
+	short      map[string]time.Time // tokens created with a real 2 s TTL -> creation time
+	nextShort  bool
+	polRules   map[string]string    // policy name -> rules as written (generator bookkeeping only)
+	tokPols    map[string][]string  // token label -> policy names
+	dead       map[string]bool      // tokens the generator revoked or expired (bias only, never used for the verdict)
+	probeAfter string               // a token whose interrupted revocation has to be followed by one request with it
+	qualified  bool                 // with ns: requests (and capability questions) are made in the ROOT namespace with "<ns>/<path>"
+	cross      bool                 // with ns: policies and tokens live in the ROOT namespace (rules name "<ns>/…"), mounts and requests in ns
+	ns         *namespace.Namespace // non-nil: the whole case (mounts, policies, tokens, requests) lives in this child namespace
+	debug      bool
 }
 
 func c02Class(resp *logical.Response, err error) string {
@@ -296,13 +297,33 @@ func (e *c02Env) tokNew0(label, pols string, numUses int, kind string) {
 func (e *c02Env) tokRevoke(label string) {
 	if e.cross && e.ns != nil {
 		e.inRoot(func() { e.tokRevoke0(label) }) // tokens and identities of a CROSS case live in the root namespace
-		return
+	} else {
+		e.tokRevoke0(label)
 	}
-	e.tokRevoke0(label)
+	if e.probeAfter != "" {
+		e.req("valid:"+e.probeAfter, "read", e.mounts[0]+"data/a", "10.1.2.3")
+		e.p.KeyFaultFired()
+		e.probeAfter = ""
+	}
 }
 
 func (e *c02Env) tokRevoke0(label string) {
-	e.adm(logical.UpdateOperation, "auth/token/revoke", map[string]any{"token": e.toks[label].client})
+	if e.toks[label].kind != "batch" && e.rng.Chance(25) {
+		// a revocation that does NOT run to completion (every storage delete fails for a while): the token is taken out
+		// of service by the FIRST write of the revocation — from then on it authorises nothing, whatever becomes of
+		// the rest ("unrevoked" is a condition of every grant; the model makes no difference between the two ends)
+		// (the outage lasts until the token has been tried once: the expiration manager's own retries fail, too)
+		e.p.FailKeyUntilCleared("delete", "", "")
+		req := &logical.Request{Operation: logical.UpdateOperation, Path: "auth/token/revoke", ClientToken: e.root,
+			Data: map[string]any{"token": e.toks[label].client}, Connection: &logical.Connection{RemoteAddr: "127.0.0.1"}}
+		_, _ = e.c.HandleRequest(e.ctx(), req)
+		e.dead[label] = true
+		e.out.Op("ok", "tok-revoke", label)
+		e.probeAfter = label // (tried, and the outage ended, by the caller: in the namespace of the case)
+		return
+	} else {
+		e.adm(logical.UpdateOperation, "auth/token/revoke", map[string]any{"token": e.toks[label].client})
+	}
 	e.dead[label] = true
 	e.out.Op("ok", "tok-revoke", label)
 }
